@@ -53,7 +53,15 @@ pub fn run(args: &Args, r: &mut Report) {
         };
         let mut case = gen_history(&mut rng, &cfg);
         let apps = case.setup.apps.clone();
-        let l1 = add_reboot_waits(&mut case.script, &mut rng, false, &apps);
+        let mut l1 = add_reboot_waits(&mut case.script, &mut rng, false, &apps);
+        // the permission is a one-shot answer: whatever the policy would say if it were asked again after its
+        // first yes is never consulted by an implementation that acts on the most recent answer
+        for c in case.script.checks.iter_mut() {
+            if c.reboot_needed && rng.bool() {
+                c.reboot_allowed.extend([false, false, true]);
+                l1.push_str("tail,");
+            }
+        }
         // control requests consume extra decisions: make the decision list long enough with random answers
         for _ in 0..6 {
             let p = gen_params(&mut rng);
@@ -61,8 +69,31 @@ pub fn run(args: &Args, r: &mut Report) {
         }
         case.shape.push(l1);
         case.shape.push(format!("{:?}", case.script.decisions.iter().map(|d| match d { Decision::Ok(_) => 'O', Decision::OkDeferred(_) => 'o', Decision::TooSoon => 's', Decision::Throttled => 't', Decision::Denied => 'd' }).collect::<String>()));
-        let h = Hostile { ctl_budget: if start_mode { rng.usize(4) } else { 0 }, ctl_num: 1, ctl_den: 6, spurious: rng.bool(), multi_release: rng.bool(), lag: rng.bool() };
+        let mut h = Hostile { ctl_budget: if start_mode { rng.usize(4) } else { 0 }, ctl_num: 1, ctl_den: 6, spurious: rng.bool(), multi_release: rng.bool(), lag: rng.bool() };
         case.shape.push(format!("ctl{}", h.ctl_budget));
+        // policy answers (and the other environment calls) that take time: requests can then arrive while a
+        // decision is pending, e.g. before the first answer about the reboot
+        if start_mode && rng.bool() {
+            case.script.gated = GateCfg { policy: rng.chance(3, 4), plan: rng.bool(), install: rng.bool(), reboot: rng.bool() };
+            case.shape.push(format!("gated{}{}{}{}", case.script.gated.policy as u8, case.script.gated.plan as u8, case.script.gated.install as u8, case.script.gated.reboot as u8));
+            r.count("cases-with-slow-policy-answers", case.script.gated.policy as u64);
+            if case.script.gated.policy && rng.chance(1, 3) {
+                // directed: a first yes that is still on its way while requests arrive, and a no behind it
+                for c in case.script.checks.iter_mut() {
+                    if c.reboot_needed {
+                        c.reboot_allowed = vec![true, false, true];
+                    }
+                }
+                h.ctl_budget = 3;
+                case.ctl_at_reboot_question = true;
+                case.shape.push("yes-then-no".into());
+            }
+        }
+        if start_mode && rng.chance(1, 4) {
+            let n = 1 + rng.usize(14);
+            case.ctl_on_emission.push((n, rng.bool()));
+            case.shape.push(format!("ce{}", n));
+        }
         case.nontrivial = true;
         case.max_steps = 8_000;
         let run = run_hostile(&case, &mut rng, &h);
